@@ -167,6 +167,24 @@ def forIn {α σ : Type} (xs : List α) (init : σ) (f : α → σ → M σ) : M
   | [] => .ok init
   | x :: rest => M.bind (f x init) fun s => forIn rest s f
 
+/-- `for x in xs { … }` whose body may leave the enclosing function: every pass answers `inl next-state` or `inr answer`; an answer ends
+the loop at once (Rust's `return` inside the loop). -/
+def forInBrk {α σ β : Type} (xs : List α) (init : σ) (f : α → σ → M (Sum σ β)) : M (Sum σ β) :=
+  match xs with
+  | [] => .ok (.inl init)
+  | x :: rest =>
+    match f x init with
+    | .panic => .panic
+    | .ok (.inr b) => .ok (.inr b)
+    | .ok (.inl s) => forInBrk rest s f
+
+/-- `xs.iter().enumerate()`: every element with its position (a `usize`, carried as an `Int`). -/
+def enumerateFrom {α : Type} : Int → List α → List (Int × α)
+  | _, [] => []
+  | i, x :: rest => (i, x) :: enumerateFrom (i + 1) rest
+
+def enumerate {α : Type} (xs : List α) : List (Int × α) := enumerateFrom 0 xs
+
 /-- `loop { … }` with an explicit bound on the number of iterations (the bound is a parameter of the generated function;
 running out of it is reported as `none`, never silently). `f` answers `inl next-state` to continue, `inr result` to leave. -/
 def loopN {σ β : Type} (fuel : Nat) (s : σ) (f : σ → M (Sum σ β)) : M (Option β) :=
